@@ -104,7 +104,13 @@ def run(case, ctx):
     seen_inputs = []
     W = {t: rng.integers(-2, 3, size=(cd, cd * past + (const_dict.get(t, 0)))).astype(np.float32) for t, cd, _ in sig if cd > 0}
 
+    aux_seen = []
+
     def model(xin, aux=None):
+        # the carried state of a stateful model: every call must receive the state the previous call returned
+        aux_seen.append(None if aux is None else int(aux["calls"]))
+        if aux is not None:
+            aux = {"calls": aux["calls"] + 1}
         step = len(seen_inputs)
         seen_inputs.append((list(xin.keys()), {t: np.asarray(v) for t, v in xin.data.items()}, xin.D, tuple(xin.is_torus)))
         out = {}
@@ -119,7 +125,15 @@ def run(case, ctx):
 
     steps_before = _step_calls[0]
     try:
-        got, _ = ml.autoregressive_map(model, x, None, past, n_steps, const_dict)
+        use_state = case["i"] % 2 == 0
+        got, aux_out = ml.autoregressive_map(model, x, {"calls": 0} if use_state else None, past, n_steps, const_dict)
+        if use_state:
+            if aux_seen != list(range(n_steps)):
+                viols.append(viol("rollout-state-not-threaded", f"the state handed to the model at its successive calls was {aux_seen}, n explicit applications chain it as {list(range(n_steps))}; {key}"))
+            elif aux_out is None or int(aux_out["calls"]) != n_steps:
+                viols.append(viol("rollout-state-not-threaded", f"returned state {aux_out}, expected calls={n_steps}; {key}"))
+        elif aux_out is not None:
+            viols.append(viol("rollout-state-not-threaded", f"aux_data None went in, {aux_out} came out"))
     except Exception as e:
         import traceback
 
